@@ -911,7 +911,11 @@ class Flow(NLRI):
         bgp = self._packed
 
         # Skip RD for flow_vpn
-        if self.safi in (SAFI.flow_vpn,) and len(bgp) >= 8:
+        if self.safi in (SAFI.flow_vpn,):
+            if 0 < len(bgp) < 8:
+                # RFC 8955 8: the NLRI value starts with an 8 octet route distinguisher; reading a
+                # shorter value as components delivers a rule without RD, for every VPN
+                raise Notify(3, 10, 'flow-vpn NLRI is too short to hold its route distinguisher')
             bgp = bgp[8:]
 
         try:
